@@ -72,6 +72,12 @@ var props = []*propSpec{
 }
 
 func init() {
+	props = append(props, &propSpec{ID: "C20", Level: "exploration", Clauses: []string{"C20."},
+		Scens:  []scenSpec{{Name: "upload", Weight: 2}, {Name: "restartdir", Weight: 3, Batch: 20}, {Name: "backend", Weight: 2}, {Name: "names", Weight: 1, Batch: 50}, {Name: "conc", Weight: 1}},
+		QuickS: 45, ThorS: 600, Rule: ruleCommon + "; for the 'names' scenario a run is a batch of (kind, hash, prefix, mode) tuples evaluated through the S3/Azure key functions (pure-function spot check)"})
+	props = append(props, &propSpec{ID: "C14", Level: "exploration", Clauses: []string{"C14."},
+		Scens:  []scenSpec{{Name: "hostile", Weight: 3}, {Name: "upload", Weight: 1}, {Name: "bswrite", Weight: 1}},
+		QuickS: 45, ThorS: 900, Rule: ruleCommon})
 	props = append(props, &propSpec{ID: "C17", Level: "exploration", Clauses: []string{"C17."},
 		Scens:  []scenSpec{{Name: "hardlimit", Weight: 1}},
 		QuickS: 40, ThorS: 600, Rule: ruleCommon})
